@@ -133,6 +133,10 @@ def mk_register(s: dict):
     """Returns a Register/Register3D or a MappableRegister."""
     if s.get("mappable"):
         lay = RegisterLayout(s["layout"]["coords"], slug=s["layout"].get("slug"))
+        if s.get("mids"):
+            from pulser.register.mappable_reg import MappableRegister
+
+            return MappableRegister(lay, *s["mids"])
         return lay.make_mappable_register(s["mappable"], prefix=s.get("prefix", "q"))
     if s.get("layout") is not None:
         lay = RegisterLayout(s["layout"]["coords"], slug=s["layout"].get("slug"))
@@ -143,6 +147,8 @@ def mk_register(s: dict):
 
 def register_qubit_ids(s: dict) -> list:
     if s.get("mappable"):
+        if s.get("mids"):
+            return list(s["mids"])
         return [f"{s.get('prefix', 'q')}{i}" for i in range(s["mappable"])]
     return list(s["ids"])
 
